@@ -990,7 +990,7 @@ def determinism_selftest(check, master, n):
     b = {}
     for part in common.run_pool(other, 3, wall_cap=600):
         b.update(part)
-    env = dict(os.environ, PYTHONHASHSEED='4242', PYTHONDONTWRITEBYTECODE='1')
+    env = dict(os.environ, VERIF_HASHSEED='4242', PYTHONHASHSEED='4242', PYTHONDONTWRITEBYTECODE='1')
     p = subprocess.run([sys.executable, os.path.join(common.VERIF_DIR, 'run_check.py'), '--det-fingerprint',
                         check, str(master), ','.join(map(str, idxs)), '0'],
                        env=env, capture_output=True, text=True, timeout=1200)
